@@ -631,9 +631,17 @@ class C08(Check):
         label = getattr(getattr(out, "voice_burst", None), "name", "")
         label = label[-1] if label.startswith("VoiceBurst") else "-"
         if type0 == "VoiceTransmission" and cls == "vs":
+            st["sync_seen"] = True
             if label != "A":
                 V("C08.5 voice-labels", "sync", f"voice-sync burst inside a voice transmission labelled {label}, expected A")
             st["chain"] = "A"
+        elif type0 == "VoiceTransmission" and cls == "ve" and not st.get("sync_seen"):
+            # no voice-sync burst yet in this voice transmission: there is nothing the A..F position could be counted from -- in particular
+            # not the previous call's position
+            if label in "ABCDEF":
+                V("C08.5 voice-labels", "before-first-sync", f"voice burst labelled {label} although this voice transmission has not had a voice-sync burst yet "
+                  f"(labels are counted from each voice-sync burst on)")
+            st["chain"] = None
         elif type0 == "VoiceTransmission" and cls == "ve" and st["chain"]:
             want = NEXT_LABEL[st["chain"]]
             if st["chain"] == "F":
@@ -643,6 +651,8 @@ class C08(Check):
             st["chain"] = want
         else:
             st["chain"] = None
+        if evs:
+            st["sync_seen"] = False  # a transmission started or ended during this burst: the next one has not had its sync yet
         # 6. receive sequence numbers
         seq = getattr(out, "sequence_no", None)
         if st["prev"] is None or st["after_end"]:
